@@ -1,6 +1,6 @@
 (** C20c -- byte idempotence of the penman command for the option sets with
-    --reify-edges / --reify-attributes (with or without --canonicalize-roles, any
-    formatting), which Properties/C20.v and C20b.v leave to the oracle.
+    --reify-edges / --dereify-edges / --reify-attributes (with or without
+    --canonicalize-roles, any formatting), which Properties/C20.v and C20b.v leave to the oracle.
     ONLY statements here; the vocabulary is Spec/Idle.v, the proofs are in
     Proofs/NormIdem_lemmas.v.
 
@@ -8,13 +8,14 @@
     /repo (known findings F30 and F32: machine-checked witnesses below), so it is
     proved under a DECIDABLE condition on what the first pass wrote, the
     idempotence certificate (Spec/Idle.v):
-      reify_canon_only o    no --dereify-edges, --indicate-branches, --reconfigure,
+      reify_canon_only o    no --indicate-branches, --reconfigure,
                             --rearrange, --make-variables, --check, --triples;
       second_pass_idle_c o t1   the tree t1 the first pass formats is well formed
                             (C01), and, canonicalised again when that option is on,
                             it is a layout tree (C02) with a root variable, formats
                             to the same text, and its interpretation has no
-                            reifiable role (if --reify-edges) and no attribute (if
+                            reifiable role (if --reify-edges), an empty dereification
+                            agenda (if --dereify-edges) and no attribute (if
                             --reify-attributes) left;
       idempotence_certificate o s   the above for every graph of the input s.
     The harness evaluates the certificate through the extracted model on every
@@ -41,6 +42,11 @@ Theorem C20c_reify_attributes_fixed_point : forall g, no_attributes g = true -> 
 Proof. exact reify_attributes_fixed. Qed.
 Print Assumptions C20c_reify_attributes_fixed_point.
 
+Theorem C20c_dereify_edges_fixed_point : forall m g, agenda_empty m g = true -> closed_graph g ->
+  dereify_edges m g = Ok g.
+Proof. exact dereify_edges_fixed. Qed.
+Print Assumptions C20c_dereify_edges_fixed_point.
+
 (* what interpret returns for a tree with a root variable, and what either
    reification returns, is closed (the Graph constructor applied to its fields
    gives it back) *)
@@ -66,9 +72,9 @@ Print Assumptions C20c_reify_attributes_idempotent.
 (** * The command *)
 
 (* when the graph entering the reify stage has nothing to reify, the run equals
-   the run without the two reify options (any other options, --dereify-edges
-   excepted, which sits between the two) *)
-Theorem C20c_idle_reify_options_can_be_struck : forall o t g, o_dereify_edges o = false ->
+   (and, for --dereify-edges, nothing to collapse: its agenda is empty), the run
+   equals the run without these three options, whatever the other options *)
+Theorem C20c_idle_reify_options_can_be_struck : forall o t g,
   entering_graph o t = Ok g -> closed_graph g -> idle_on o g = true ->
   pipeline o t = pipeline (strip_reify o) t.
 Proof. exact pipeline_strip. Qed.
@@ -128,6 +134,17 @@ Example C20c_certificate_nonvacuous :
   second_pass_same (c20c_opts true) c20c_two_graphs = Some true.
 Proof. vm_compute. repeat split. Qed.
 
+(* --dereify-edges alone: the reified node of the input is collapsed by the first
+   pass, the second pass has an empty agenda *)
+Definition c20c_dereify_opts : cli_opts :=
+  mkOpts amr_model false false true false false None None None (Some (-1)%Z) false false false [].
+Definition c20c_reified : str := [40;97;32;47;32;97;108;112;104;97;10;32;32;32;58;65;82;71;49;45;111;102;32;40;95;32;47;32;104;97;118;101;45;109;111;100;45;57;49;10;32;32;32;32;32;32;32;32;32;32;32;32;32;32;32;32;58;65;82;71;50;32;40;98;32;47;32;98;101;116;97;41;41;41;10]%N.
+Example C20c_dereify_certified :
+  idempotence_certificate c20c_dereify_opts c20c_reified = true /\
+  second_pass_same c20c_dereify_opts c20c_reified = Some true /\
+  (match run c20c_dereify_opts [] c20c_reified with Ok (out, _) => negb (str_eqb out c20c_reified) | _ => false end) = true.
+Proof. vm_compute. repeat split. Qed.
+
 (* F30: an attribute written with an inverted reifiable role -- not certified, and
    the second pass does change the text *)
 Example C20c_F30_refuted :
@@ -139,4 +156,14 @@ Proof. vm_compute. split; reflexivity. Qed.
 Example C20c_F32_refuted :
   idempotence_certificate (c20c_opts true) c20c_f32 = false /\
   second_pass_same (c20c_opts true) c20c_f32 = Some false.
+Proof. vm_compute. split; reflexivity. Qed.
+
+(* F33: --canonicalize-roles --dereify-edges; the dereified edge is written
+   against its direction and that spelling has a normalisation *)
+Definition c20c_f33_opts : cli_opts :=
+  mkOpts amr_model true false true false false None None None (Some (-1)%Z) false false false [].
+Definition c20c_f33 : str := [40;97;32;47;32;100;111;103;32;58;65;82;71;50;45;111;102;32;40;95;32;47;32;104;97;118;101;45;109;111;100;45;57;49;32;58;65;82;71;49;32;40;98;32;47;32;98;105;103;41;41;41;10]%N.
+Example C20c_F33_refuted :
+  idempotence_certificate c20c_f33_opts c20c_f33 = false /\
+  second_pass_same c20c_f33_opts c20c_f33 = Some false.
 Proof. vm_compute. split; reflexivity. Qed.
